@@ -107,7 +107,7 @@ Why(w) == Ev.why = "" \/ Ev.why = w
 TClose ==
     /\ IsEv("Close")
     /\ LET p == Ev.p IN
-       /\ disc'[p] /\ ~disc[p]
+       /\ ~disc[p]
        /\ IF role[p] = "raw" THEN RawClose(p)
           ELSE \/ Why("user") /\ UserDisconnect(p)
                \/ Why("negtimeout") /\ NegTimeout(p)
